@@ -1,12 +1,11 @@
 #include "common.hpp"
 
 // ---------------------------------------------------------------------------------------
-// One simulation step at API level, wired as src/main.cpp wires it (single bunch):
+// One simulation step at API level, wired as src/main.cpp wires it (nb >= 1 bunches in buckets with gaps):
 //   grid_t1 --wm--> grid_t2 --rfm--> grid_t1 --drm--> grid_t3 --fpm--> grid_t1
 //   wake: ElectricField (physical-units constructor) + WakePotentialMap::update()
 //
-// step <id> <n> <it> <nmax> <order: 4 tokens of W R D F> <ztype> <zparams...>
-//      Ib E0 sE dt f_rev f_RF bl pqsize angle e1 deriv shiftx shifty  data (n*n floats)
+// (case format: see do_step)
 //   ztype: const zr zi | rw s xi radius | tab (nmax pairs re im)
 // prints everything the check compares (hex floats).
 static std::shared_ptr<Impedance> read_impedance(size_t nmax, double fmax, double f_rev)
@@ -30,18 +29,28 @@ static std::shared_ptr<Impedance> read_impedance(size_t nmax, double fmax, doubl
     exit(3);
 }
 
-static void print_grid(const char* tag, std::shared_ptr<PhaseSpace> g, size_t n)
+static void print_grid(const char* tag, std::shared_ptr<PhaseSpace> g, size_t cells)
 {
     printf("%s", tag);
-    for (size_t i = 0; i < n * n; i++) pf(g->getData()[i]);
+    for (size_t i = 0; i < cells; i++) pf(g->getData()[i]);
     printf("\n");
 }
 
+// step <id> <n> <nb> <it> <nmax> <spacing_bins> <buckets (nb)> <filling (nb)> <order: 4 tokens of W R D F>
+//      <ztype> <zparams...> Ib E0 sE dt f_rev f_RF bl pqsize angle e1 deriv shiftx shifty  data (nb*n*n floats)
+// nb bunches on the grid (bunch-major), buckets[b] the bucket number of bunch b, spacing_bins the distance of two
+// buckets in grid cells, filling the normalised bunch currents, Ib the accumulated current: what main() hands to
+// PhaseSpace::setSize / PhaseSpace / ElectricField for a filling pattern (src/main.cpp:256-330, 787-797).
 static void do_step()
 {
     std::string id = next();
-    unsigned n = nextl(), it = nextl();
+    unsigned n = nextl(), nb = nextl(), it = nextl();
     size_t nmax = nextl();
+    unsigned spacing = nextl();
+    std::vector<uint32_t> buckets(nb);
+    for (auto& b : buckets) b = nextl();
+    std::vector<integral_t> bunches(nb);
+    for (auto& f : bunches) f = nextf();
     std::string order[4];
     for (auto& o : order) o = next();
     double Ib, E0, sE, dt, f_rev, f_RF, bl, pqsize;
@@ -69,13 +78,13 @@ static void do_step()
     const double Qb = Ib / f_rev;
     const double revolutionpart = f_rev * dt;
     const double half = pqsize / 2;
-    PhaseSpace::resetSize(n, 1);
-    std::vector<integral_t> bunches{1.0f};
+    const size_t cells = (size_t)nb * n * n, rows = (size_t)nb * n;
+    PhaseSpace::resetSize(n, nb);
     // main.cpp:187-193: qcenter = -ShiftX*pqsize/(ps_bins-1), qmin/qmax = qcenter -/+ pqsize/2 (same for p)
     const double qcenter = -shx * pqsize / (n - 1), pcenter = -shy * pqsize / (n - 1);
     auto g1 = std::make_shared<PhaseSpace>(qcenter - half, qcenter + half, bl, pcenter - half, pcenter + half, dE,
                                            nullptr, Qb, Ib, bunches, 1.0);
-    for (size_t i = 0; i < (size_t)n * n; i++) g1->getData()[i] = nextf();
+    for (size_t i = 0; i < cells; i++) g1->getData()[i] = nextf();
     auto g2 = std::make_shared<PhaseSpace>(*g1);
     auto g3 = std::make_shared<PhaseSpace>(*g1);
     const auto itype = static_cast<SourceMap::InterpolationType>(it);
@@ -85,8 +94,7 @@ static void do_step()
     DriftMap drm(g1, g3, slip, E0, itype, false, nullptr);
     FokkerPlanckMap fpm(g3, g1, n, n, FokkerPlanckMap::FPType::full, FokkerPlanckMap::FPTracking::none, e1,
                         static_cast<FokkerPlanckMap::DerivationType>(deriv), nullptr);
-    std::vector<uint32_t> buckets{0};
-    ElectricField field(g1, imp, buckets, 0, nullptr, f_rev, revolutionpart, Ib, E0, sE, dt);
+    ElectricField field(g1, imp, buckets, spacing, nullptr, f_rev, revolutionpart, Ib, E0, sE, dt);
     WakePotentialMap wkm(g1, g2, &field, itype, false, nullptr);
 
     // "Starting the simulation": projection of the current grid, then the loop body
@@ -99,23 +107,24 @@ static void do_step()
     pf(g1->getAxis(0)->zerobin()); pf(g1->getAxis(1)->zerobin()); printf("\n");
     printf("scaling"); pf(field.getWakeScaling()); printf(" %zu\n", field.getNMax());
     printf("tan"); pf(std::tan(rfm._angle)); printf("\n");
-    printf("proj"); for (unsigned x = 0; x < n; x++) pf(g1->getProjection(0)[0][x]); printf("\n");
+    printf("proj"); for (unsigned b = 0; b < nb; b++) for (unsigned x = 0; x < n; x++) pf(g1->getProjection(0)[b][x]); printf("\n");
     printf("padded"); for (size_t i = 0; i < nmax; i++) pf(field._bp_padded[i]); printf("\n");
     printf("imp"); for (size_t i = 0; i <= nmax / 2; i++) { pf((*imp)[i].real()); pf((*imp)[i].imag()); } printf("\n");
     printf("nyq"); pf(field._wakelosses[nmax / 2].real()); pf(field._wakelosses[nmax / 2].imag()); printf("\n");
-    printf("wp"); for (unsigned x = 0; x < n; x++) pf(field._wakepotential[0][x]); printf("\n");
-    printf("woff"); for (unsigned x = 0; x < n; x++) pf(wkm._offset[x]); printf("\n");
-    printf("force"); for (unsigned x = 0; x < n; x++) pf(wkm.getForce()[x]); printf("\n");
-    printf("rfoff"); for (unsigned x = 0; x < n; x++) pf(rfm._offset[x]); printf("\n");
+    printf("wp"); for (unsigned b = 0; b < nb; b++) for (unsigned x = 0; x < n; x++) pf(field._wakepotential[b][x]); printf("\n");
+    printf("sizes %zu %zu %zu\n", wkm._offset.size(), rfm._offset.size(), drm._offset.size());
+    printf("woff"); for (size_t i = 0; i < rows; i++) pf(wkm._offset[i]); printf("\n");
+    printf("force"); for (size_t i = 0; i < rows; i++) pf(wkm.getForce()[i]); printf("\n");
+    printf("rfoff"); for (size_t i = 0; i < rows; i++) pf(rfm._offset[i]); printf("\n");
     printf("droff"); for (unsigned y = 0; y < n; y++) pf(drm._offset[y]); printf("\n");
-    printf("wtab"); for (size_t k = 0; k < (size_t)n * it; k++) printf(" %u", wkm._hinfo[k].index); printf("\n");
-    printf("rtab"); for (size_t k = 0; k < (size_t)n * it; k++) printf(" %u", rfm._hinfo[k].index); printf("\n");
+    printf("wtab"); for (size_t k = 0; k < rows * it; k++) printf(" %u", wkm._hinfo[k].index); printf("\n");
+    printf("rtab"); for (size_t k = 0; k < rows * it; k++) printf(" %u", rfm._hinfo[k].index); printf("\n");
 
     for (auto& o : order) {
-        if (o == "W") { wkm.apply(); print_grid("gW", g2, n); }
-        else if (o == "R") { rfm.apply(); print_grid("gR", g1, n); }
-        else if (o == "D") { drm.apply(); print_grid("gD", g3, n); }
-        else if (o == "F") { fpm.apply(); print_grid("gF", g1, n); }
+        if (o == "W") { wkm.apply(); print_grid("gW", g2, cells); }
+        else if (o == "R") { rfm.apply(); print_grid("gR", g1, cells); }
+        else if (o == "D") { drm.apply(); print_grid("gD", g3, cells); }
+        else if (o == "F") { fpm.apply(); print_grid("gF", g1, cells); }
         else { fprintf(stderr, "unknown map %s\n", o.c_str()); exit(3); }
     }
     printf("end\n");
